@@ -844,7 +844,6 @@ var (
 // many merges in a row are not derived (the guard lists get shorter, never longer).
 var maxGuardNesting = 5
 
-
 // BlockGuards returns the branch outcomes that hold whenever block b runs:
 // the outcomes of dominating edges, plus what those imply. A branch on a
 // value that merges several outcomes (a boolean or error phi: `ok := a && b`,
